@@ -2,11 +2,115 @@
 `deleteNode` (translated from internal/tree/red_black_tree.go) preserves the pointer-level invariant `Holds`
 (the set of addresses may shrink: the spliced-out node, and whatever hangs under a cut-off node, become garbage).
 -/
-import Ekit.MiniGo.RBContract
+import Ekit.MiniGo.RBOrder
 namespace Ekit.MiniGo.RBHeap.Del
 open Ekit.MiniGo Ekit.Gen.RBTreeGo
 
+/-! ### order: list-level facts -/
+
+/-- the keys of the addresses other than `n`, in order, are ascending -/
+def Good (cmpF : Int → Int → Int) (h : Nat → Node) (L : List Nat) (n : Nat) : Prop :=
+  ((L.filter (· != n)).map fun a => (h a).key).Pairwise fun x y => cmpF x y < 0
+
+theorem good_of_ordered {cmpF : Int → Int → Int} {st : St} {t : PT} (ho : Ordered cmpF st t) (n : Nat) :
+    Good cmpF st.h t.addrs n :=
+  List.Pairwise.sublist (List.Sublist.map _ List.filter_sublist) ho
+
+theorem good_use {cmpF : Int → Int → Int} {h h' : Nat → Node} {L L' : List Nat} {n : Nat}
+    (hg : Good cmpF h L n) (hs : L'.Sublist L) (hn : n ∉ L') (hk : ∀ a, (h' a).key = (h a).key) :
+    (L'.map fun a => (h' a).key).Pairwise fun x y => cmpF x y < 0 := by
+  have e : (fun a => (h' a).key) = fun a => (h a).key := funext hk
+  rw [e]
+  have h1 : L'.filter (· != n) = L' := by
+    rw [List.filter_eq_self]; intro a ha; simp; intro e; exact hn (e ▸ ha)
+  have h2 := List.Sublist.filter (· != n) hs
+  rw [h1] at h2
+  exact List.Pairwise.sublist (List.Sublist.map _ h2) hg
+
+/-- after `a.key = s.key` (`s` the in-order successor of `a`) the keys other than that of `s` are ascending -/
+theorem good_succ {cmpF : Int → Int → Int} {key key' : Nat → Int} {L pre post : List Nat} {a s : Nat}
+    (hL : L = pre ++ a :: s :: post) (hnd : L.Nodup)
+    (ho : (L.map key).Pairwise fun x y => cmpF x y < 0)
+    (hk : ∀ x, x ≠ a → key' x = key x) (hka : key' a = key s) :
+    ((L.filter (· != s)).map key').Pairwise fun x y => cmpF x y < 0 := by
+  subst hL
+  have hnd' := hnd
+  rw [List.nodup_append] at hnd'
+  obtain ⟨_, h2, h3⟩ := hnd'
+  rw [List.nodup_cons, List.nodup_cons] at h2
+  obtain ⟨ha, hs, _⟩ := h2
+  have has : a ≠ s := fun e => ha (by simp [e])
+  have hspre : s ∉ pre := fun hx => h3 s hx s (by simp) rfl
+  have hapre : a ∉ pre := fun hx => h3 a hx a (by simp) rfl
+  have hapost : a ∉ post := fun hx => ha (by simp [hx])
+  have f1 : pre.filter (· != s) = pre := by
+    rw [List.filter_eq_self]; intro x hx; simp; intro e; exact hspre (e ▸ hx)
+  have f2 : post.filter (· != s) = post := by
+    rw [List.filter_eq_self]; intro x hx; simp; intro e; exact hs (e ▸ hx)
+  have hf : (pre ++ a :: s :: post).filter (· != s) = pre ++ a :: post := by
+    simp [List.filter_append, f1, f2, has]
+  rw [hf]
+  have hm : (pre ++ a :: post).map key' = (pre ++ s :: post).map key := by
+    simp only [List.map_append, List.map_cons, hka]
+    congr 1
+    · exact List.map_congr_left (fun x hx => hk x (fun e => hapre (e ▸ hx)))
+    · congr 1
+      exact List.map_congr_left (fun x hx => hk x (fun e => hapost (e ▸ hx)))
+  rw [hm]
+  refine List.Pairwise.sublist (List.Sublist.map _ ?_) ho
+  exact List.Sublist.append (List.Sublist.refl _) (List.sublist_cons_self _ _)
+
+/-- what the pointer surgery of `deleteNode` achieves: the new heap holds a tree whose in-order address list is a
+    sublist of the old one without `n`, and no key field has changed -/
+structure Shr (st st' : St) (t t' : PT) (n : Nat) : Prop where
+  holds : Holds st' t'
+  sub : t'.addrs.Sublist t.addrs
+  nmem : n ∉ t'.addrs
+  keys : ∀ a, (st'.h a).key = (st.h a).key
+
+theorem Shr.pres {st0 st st' : St} {t t' t'' : PT} {n : Nat} (h1 : Shr st0 st t t' n) (h2 : Pres st st' t' t'') :
+    Shr st0 st' t t'' n :=
+  ⟨h2.holds, by rw [h2.addrs]; exact h1.sub, by rw [h2.addrs]; exact h1.nmem,
+   fun a => (h2.keys a).trans (h1.keys a)⟩
+
+theorem Shr.of_pres {st0 st st' : St} {t t' t'' : PT} {n : Nat} (h1 : Pres st0 st t t') (h2 : Shr st st' t' t'' n) :
+    Shr st0 st' t t'' n :=
+  ⟨h2.holds, by rw [← h1.addrs]; exact h2.sub, h2.nmem, fun a => (h2.keys a).trans (h1.keys a)⟩
+
+theorem Shr.mem {st st' : St} {t t' : PT} {n : Nat} (h : Shr st st' t t' n) : ∀ x ∈ t'.addrs, x ∈ t.addrs :=
+  fun _ hx => h.sub.subset hx
+
+theorem Shr.ordered {cmpF : Int → Int → Int} {st st' : St} {t t' : PT} {n : Nat} (h : Shr st st' t t' n)
+    (hg : Good cmpF st.h t.addrs n) : Ordered cmpF st' t' :=
+  good_use hg h.sub h.nmem h.keys
+
+theorem shr_intro {st stm : St} {t : PT} {n r : Nat}
+    (h : ∃ t', Holds stm t' ∧ t'.addrs.Sublist t.addrs ∧ n ∉ t'.addrs ∧ r ∈ t'.addrs)
+    (hk : ∀ a, (stm.h a).key = (st.h a).key) : ∃ t', Shr st stm t t' n ∧ r ∈ t'.addrs := by
+  obtain ⟨t', h1, h2, h3, h4⟩ := h
+  exact ⟨t', ⟨h1, h2, h3, hk⟩, h4⟩
+
+theorem shr_intro' {st stm : St} {t : PT} {n : Nat}
+    (h : ∃ t', Holds stm t' ∧ t'.addrs.Sublist t.addrs ∧ n ∉ t'.addrs)
+    (hk : ∀ a, (stm.h a).key = (st.h a).key) : ∃ t', Shr st stm t t' n := by
+  obtain ⟨t', h1, h2, h3⟩ := h
+  exact ⟨t', ⟨h1, h2, h3, hk⟩⟩
+
 /-! ### tree-level facts -/
+
+theorem replace_sublist {t : PT} {n : Nat} {s s' : PT} (hnd : t.addrs.Nodup) (hs : t.sub n = some s)
+    (hsub : s'.addrs.Sublist s.addrs) : (t.replace n s').addrs.Sublist t.addrs := by
+  obtain ⟨pre, post, e1, e2⟩ := addrs_replace (s' := s') hnd hs
+  rw [e1, e2]
+  exact List.Sublist.append (List.Sublist.append (List.Sublist.refl _) hsub) (List.Sublist.refl _)
+
+theorem not_mem_replace {t : PT} {n : Nat} {s s' : PT} (hnd : t.addrs.Nodup) (hs : t.sub n = some s)
+    (hn : n ∉ s'.addrs) : n ∉ (t.replace n s').addrs := by
+  rw [mem_replace hnd hs]
+  obtain ⟨⟨L, R, rfl⟩, _⟩ := sub_spec hs
+  rintro (⟨_, h2⟩ | h2)
+  · exact h2 (by simp [PT.addrs])
+  · exact hn h2
 
 theorem ptr_mem {t : PT} {n : Nat} (h : t.ptr = some n) : n ∈ t.addrs := by
   cases t with
@@ -183,7 +287,7 @@ theorem splice_holds {h : Nat → Node} {al : Nat} {root : Option Nat} {sz : Int
          ((h p).left ≠ some n ∧ (h' p).left = (h p).left ∧ (h' p).right = some r))) →
       ((h n).parent = none → root' = some r) →
       (∀ p, (h n).parent = some p → root' = root) →
-      ∃ t', Holds ⟨h', al, root', sz'⟩ t' ∧ (∀ x ∈ t'.addrs, x ∈ t.addrs) ∧ r ∈ t'.addrs := by
+      ∃ t', Holds ⟨h', al, root', sz'⟩ t' ∧ t'.addrs.Sublist t.addrs ∧ n ∉ t'.addrs ∧ r ∈ t'.addrs := by
   obtain ⟨s, hs⟩ := sub_some_of_mem hn
   obtain ⟨⟨L, R, hsLR⟩, hst⟩ := sub_spec hs
   have hsnd := sub_nodup hs hH.2.1
@@ -199,13 +303,15 @@ theorem splice_holds {h : Nat → Node} {al : Nat} {root : Option Nat} {sz : Int
   have hnL : n ∉ L.addrs := fun hb => hdisj n hb n (by simp) rfl
   -- the child subtree
   have hch : ∃ s', Repr h (some r) (some n) s' ∧ (∀ x ∈ s'.addrs, x ∈ (PT.node L n R).addrs ∧ x ≠ n) ∧
-      s'.addrs.Nodup := by
+      s'.addrs.Nodup ∧ s'.addrs.Sublist (PT.node L n R).addrs := by
     rcases hrn with e | ⟨_, e⟩
     · exact ⟨L, by rw [← e]; exact hL,
-        fun x hx => ⟨by simp [PT.addrs, hx], fun e => hnL (e ▸ hx)⟩, ndL⟩
+        fun x hx => ⟨by simp [PT.addrs, hx], fun e => hnL (e ▸ hx)⟩, ndL,
+        List.sublist_append_left L.addrs (n :: R.addrs)⟩
     · exact ⟨R, by rw [← e]; exact hR,
-        fun x hx => ⟨by simp [PT.addrs, hx], fun e => hnR (e ▸ hx)⟩, ndR⟩
-  obtain ⟨s', hs'R, hs'sub, hs'nd⟩ := hch
+        fun x hx => ⟨by simp [PT.addrs, hx], fun e => hnR (e ▸ hx)⟩, ndR,
+        (List.sublist_cons_self n R.addrs).trans (List.sublist_append_right L.addrs (n :: R.addrs))⟩
+  obtain ⟨s', hs'R, hs'sub, hs'nd, hs'sl⟩ := hch
   cases s' with
   | leaf => simp [Repr] at hs'R
   | node A r' B =>
@@ -248,7 +354,8 @@ theorem splice_holds {h : Nat → Node} {al : Nat} {root : Option Nat} {sz : Int
         · exact .inl ⟨a1, a2, a3⟩
         · exact .inr ⟨a1, a2, fun _ => a3⟩)
       hroot1 hroot2
-    refine ⟨_, hrep.1, hrep.2, ?_⟩
+    refine ⟨_, hrep.1, replace_sublist hH.2.1 hs hs'sl,
+      not_mem_replace hH.2.1 hs (fun hx => (hs'sub n hx).2 rfl), ?_⟩
     rw [mem_replace hH.2.1 hs]
     exact .inr (by simp [PT.addrs])
 
@@ -261,7 +368,7 @@ theorem cut_holds {h : Nat → Node} {al : Nat} {root : Option Nat} {sz : Int} {
       ((h' p).parent = (h p).parent ∧
         (((h p).left = some n ∧ (h' p).left = none ∧ (h' p).right = (h p).right) ∨
          ((h p).left ≠ some n ∧ (h' p).left = (h p).left ∧ (h' p).right = none))) →
-      ∃ t', Holds ⟨h', al, root, sz'⟩ t' ∧ (∀ x ∈ t'.addrs, x ∈ t.addrs) := by
+      ∃ t', Holds ⟨h', al, root, sz'⟩ t' ∧ t'.addrs.Sublist t.addrs ∧ n ∉ t'.addrs := by
   obtain ⟨s, hs⟩ := sub_some_of_mem hn
   obtain ⟨⟨L, R, hsLR⟩, hst⟩ := sub_spec hs
   have hsubR := repr_sub hH.1 hs
@@ -286,7 +393,8 @@ theorem cut_holds {h : Nat → Node} {al : Nat} {root : Option Nat} {sz : Int} {
       · exact .inl ⟨a1, a2, a3⟩
       · exact .inr ⟨a1, a2, fun _ => a3⟩)
     (fun e => by rw [hp] at e; simp at e) (fun _ _ => rfl)
-  exact ⟨_, hrep.1, hrep.2⟩
+  exact ⟨_, hrep.1, replace_sublist hH.2.1 hs (by simp [PT.addrs]),
+    not_mem_replace hH.2.1 hs (by simp [PT.addrs])⟩
 
 /-! ### the pieces of the body -/
 
@@ -351,6 +459,16 @@ theorem body_deleteNode_eq : body_deleteNode =
     (.seq (.ite (.ne (.var 3) .nil) dnSplice dnNoRepl)
     (.setSize (.add .size (.int (-1))))))))) := rfl
 
+/-- everything after the successor step -/
+def dnRest : Stmt PName :=
+  (.seq (.assign 3 .nil)
+    (.seq dnPick
+    (.seq (.ite (.ne (.var 3) .nil) dnSplice dnNoRepl)
+    (.setSize (.add .size (.int (-1)))))))
+
+theorem body_deleteNode_eq' : body_deleteNode =
+    (.seq (.assign 1 (.var 0)) (.seq dnSucc dnRest)) := rfl
+
 theorem valEq_ptr (a b : Option Nat) : valEq (.ptr a) (.ptr b) = some (a == b) := rfl
 
 theorem upd_same (h : Nat → Node) (a : Nat) (v : Node) : upd h a v a = v := by simp [upd]
@@ -385,7 +503,8 @@ theorem exec_succ (hK : ∀ fn, isK fn = true → SpecK callH fn) :
       | error e => simp [hl, hr, hc] at hx
       | ok res =>
         obtain ⟨v, st1⟩ := res
-        obtain ⟨t1, hH1, hsa, hv⟩ := hK .findSuccessor rfl _ _ _ _ t hH (by simpa [PtrIn] using hn) hc
+        obtain ⟨t1, hH1, hpr, hv⟩ := hK .findSuccessor rfl _ _ _ _ t hH (by simpa [PtrIn] using hn) hc
+        have hsa := hpr.same
         simp [hl, hr, hc, Env.set, hρ] at hx
         cases v with
         | ptr p =>
@@ -416,10 +535,10 @@ theorem exec_pick : ∀ ρ st fl ρ' st' n, ρ 1 = .ptr (some n) →
 
 theorem exec_tail (hK : ∀ fn, isK fn = true → SpecK callH fn)
     (hGC : ∀ args st v st', callH .getColor args st = .ok (v, st') → st' = st) :
-    ∀ ρ st fl ρ' st' (t : PT) r, exec cmpF callH lf ρ st dnTail = .ok (fl, ρ', st') → ρ 3 = .ptr (some r) →
-      (∃ t', Holds st t' ∧ (∀ x ∈ t'.addrs, x ∈ t.addrs) ∧ r ∈ t'.addrs) →
-      fl = .normal ∧ ∃ t', Holds st' t' ∧ ∀ x ∈ t'.addrs, x ∈ t.addrs := by
-  intro ρ st fl ρ' st' t r hx hρ3 ⟨t', hH, hsub, hr⟩
+    ∀ ρ st fl ρ' st' (st0 : St) (t : PT) n r, exec cmpF callH lf ρ st dnTail = .ok (fl, ρ', st') →
+      ρ 3 = .ptr (some r) → (∃ t', Shr st0 st t t' n ∧ r ∈ t'.addrs) →
+      fl = .normal ∧ ∃ t', Shr st0 st' t t' n := by
+  intro ρ st fl ρ' st' st0 t n r hx hρ3 ⟨t', hS, hr⟩
   simp only [dnTail, exec, evalE, hρ3] at hx
   cases hc : callH .getColor [ρ 1] st with
   | error e => simp [hc] at hx
@@ -433,17 +552,17 @@ theorem exec_tail (hK : ∀ fn, isK fn = true → SpecK callH fn)
       | false =>
         simp [hc] at hx
         obtain ⟨rfl, rfl, rfl⟩ := hx
-        exact ⟨rfl, t', hH, hsub⟩
+        exact ⟨rfl, t', hS⟩
       | true =>
         simp only [hc] at hx
         cases hf : callH .fixAfterDelete [.ptr (some r)] st1 with
         | error e => simp [hf] at hx
         | ok res =>
           obtain ⟨v2, st2⟩ := res
-          obtain ⟨t2, hH2, hsa, _⟩ := hK .fixAfterDelete rfl _ _ _ _ t' hH (by simpa [PtrIn] using hr) hf
+          obtain ⟨t2, _, hpr, _⟩ := hK .fixAfterDelete rfl _ _ _ _ t' hS.holds (by simpa [PtrIn] using hr) hf
           simp [hf] at hx
           obtain ⟨rfl, rfl, rfl⟩ := hx
-          exact ⟨rfl, t2, hH2, fun x hx => hsub x ((hsa x).1 hx)⟩
+          exact ⟨rfl, t2, hS.pres hpr⟩
     | _ => simp [hc] at hx
 
 theorem exec_splice (hK : ∀ fn, isK fn = true → SpecK callH fn)
@@ -451,7 +570,7 @@ theorem exec_splice (hK : ∀ fn, isK fn = true → SpecK callH fn)
     ∀ ρ st fl ρ' st' t n r, Holds st t → n ∈ t.addrs → ρ 1 = .ptr (some n) → ρ 3 = .ptr (some r) →
       ((st.h n).left = some r ∨ ((st.h n).left = none ∧ (st.h n).right = some r)) →
       exec cmpF callH lf ρ st dnSplice = .ok (fl, ρ', st') →
-      fl = .normal ∧ ∃ t', Holds st' t' ∧ ∀ x ∈ t'.addrs, x ∈ t.addrs := by
+      fl = .normal ∧ ∃ t', Shr st st' t t' n := by
   intro ρ st fl ρ' st' t n r hH hn hρ1 hρ3 hrn hx
   obtain ⟨hrn', hpn, hsp⟩ := splice_holds (sz := st.size) hH hn hrn
   have hnr : n ≠ r := Ne.symm hrn'
@@ -459,12 +578,13 @@ theorem exec_splice (hK : ∀ fn, isK fn = true → SpecK callH fn)
   cases hp : (st.h n).parent with
   | none =>
     simp [hp, upd_ne, hnr, hρ1] at hx
-    refine exec_tail cmpF callH lf hK hGC _ _ _ _ _ t r hx hρ3 (hsp _ _ _ ?_ ?_ ?_ ?_ ?_)
+    refine exec_tail cmpF callH lf hK hGC _ _ _ _ _ st t n r hx hρ3 (shr_intro (hsp _ _ _ ?_ ?_ ?_ ?_ ?_) ?_)
     · simp [upd_ne, upd_same, hrn', hp]
     · intro x h1 h2 _; simp [upd_ne, h1, h2, SamePtrs]
     · intro p hp'; rw [hp] at hp'; cases hp'
     · intro _; rfl
     · intro p hp'; rw [hp] at hp'; cases hp'
+    · intro a; simp only [upd]; (repeat' split) <;> simp_all
   | some p =>
     obtain ⟨hpn1, hpr⟩ := hpn p hp
     simp [hp, upd_ne, hnr, hpr, valEq_ptr] at hx
@@ -472,7 +592,7 @@ theorem exec_splice (hK : ∀ fn, isK fn = true → SpecK callH fn)
     | true =>
       have hb' : (st.h p).left = some n := (eq_of_beq hb).symm
       simp [hb, hp, upd_ne, upd_same, hnr, hpr, hρ1, Ne.symm hpn1] at hx
-      refine exec_tail cmpF callH lf hK hGC _ _ _ _ _ t r hx hρ3 (hsp _ _ _ ?_ ?_ ?_ ?_ ?_)
+      refine exec_tail cmpF callH lf hK hGC _ _ _ _ _ st t n r hx hρ3 (shr_intro (hsp _ _ _ ?_ ?_ ?_ ?_ ?_) ?_)
       · simp [upd_ne, upd_same, hrn', hp, Ne.symm hpr]
       · intro x h1 h2 h3
         have h4 : x ≠ p := fun e => h3 (by rw [hp, e])
@@ -482,10 +602,11 @@ theorem exec_splice (hK : ∀ fn, isK fn = true → SpecK callH fn)
         simp [upd_ne, upd_same, hpn1, hb']
       · intro e; rw [hp] at e; cases e
       · intro _ _; rfl
+      · intro a; simp only [upd]; (repeat' split) <;> simp_all
     | false =>
       have hb' : (st.h p).left ≠ some n := fun e => by simp [e] at hb
       simp [hb, hp, upd_ne, upd_same, hnr, hpr, hρ1, Ne.symm hpn1] at hx
-      refine exec_tail cmpF callH lf hK hGC _ _ _ _ _ t r hx hρ3 (hsp _ _ _ ?_ ?_ ?_ ?_ ?_)
+      refine exec_tail cmpF callH lf hK hGC _ _ _ _ _ st t n r hx hρ3 (shr_intro (hsp _ _ _ ?_ ?_ ?_ ?_ ?_) ?_)
       · simp [upd_ne, upd_same, hrn', hp, Ne.symm hpr]
       · intro x h1 h2 h3
         have h4 : x ≠ p := fun e => h3 (by rw [hp, e])
@@ -495,49 +616,52 @@ theorem exec_splice (hK : ∀ fn, isK fn = true → SpecK callH fn)
         simp [upd_ne, upd_same, hpn1, hb']
       · intro e; rw [hp] at e; cases e
       · intro _ _; rfl
+      · intro a; simp only [upd]; (repeat' split) <;> simp_all
 
-theorem exec_fix (hK : ∀ fn, isK fn = true → SpecK callH fn) :
+theorem exec_fix (hK : ∀ fn, isK fn = true → SpecK callH fn)
+    (hGC : ∀ args st v st', callH .getColor args st = .ok (v, st') → st' = st) :
     ∀ ρ st fl ρ' st' t n, Holds st t → n ∈ t.addrs → ρ 1 = .ptr (some n) →
       exec cmpF callH lf ρ st dnFix = .ok (fl, ρ', st') →
-      fl = .normal ∧ ρ' = ρ ∧ ∃ t', Holds st' t' ∧ SameAddrs t t' := by
+      fl = .normal ∧ ρ' = ρ ∧ ∃ t', Pres st st' t t' ∧
+        (st' = st ∨ ∃ v, callH .fixAfterDelete [.ptr (some n)] st = .ok (v, st')) := by
   intro ρ st fl ρ' st' t n hH hn hρ1 hx
   simp only [dnFix, exec, evalE, hρ1] at hx
   cases hc : callH .getColor [.ptr (some n)] st with
   | error e => simp [hc] at hx
   | ok res =>
     obtain ⟨v, st1⟩ := res
-    obtain ⟨t1, hH1, hsa1, _⟩ := hK .getColor rfl _ _ _ _ t hH (by simpa [PtrIn] using hn) hc
+    have := hGC _ _ _ _ hc
+    subst this
     cases v with
     | bool b =>
       cases b with
       | false =>
         simp [hc] at hx
         obtain ⟨rfl, rfl, rfl⟩ := hx
-        exact ⟨rfl, rfl, t1, hH1, hsa1⟩
+        exact ⟨rfl, rfl, t, Pres.refl hH, .inl rfl⟩
       | true =>
         simp only [hc] at hx
         cases hf : callH .fixAfterDelete [.ptr (some n)] st1 with
         | error e => simp [hf] at hx
         | ok res =>
           obtain ⟨v2, st2⟩ := res
-          obtain ⟨t2, hH2, hsa2, _⟩ := hK .fixAfterDelete rfl _ _ _ _ t1 hH1
-            (by simpa [PtrIn] using (hsa1 n).2 hn) hf
+          obtain ⟨t2, _, hpr2, _⟩ := hK .fixAfterDelete rfl _ _ _ _ t hH (by simpa [PtrIn] using hn) hf
           simp [hf] at hx
           obtain ⟨rfl, rfl, rfl⟩ := hx
-          exact ⟨rfl, rfl, t2, hH2, hsa1.trans hsa2⟩
+          exact ⟨rfl, rfl, t2, hpr2, .inr ⟨v2, rfl⟩⟩
     | _ => simp [hc] at hx
 
 theorem exec_cut :
     ∀ ρ st fl ρ' st' t n, Holds st t → n ∈ t.addrs → ρ 1 = .ptr (some n) →
       exec cmpF callH lf ρ st dnCut = .ok (fl, ρ', st') →
-      fl = .normal ∧ ∃ t', Holds st' t' ∧ ∀ x ∈ t'.addrs, x ∈ t.addrs := by
+      fl = .normal ∧ (((st.h n).parent = none ∧ st' = st) ∨ ∃ t', Shr st st' t t' n) := by
   intro ρ st fl ρ' st' t n hH hn hρ1 hx
   simp only [dnCut, exec, evalE, hρ1, valEq_ptr, Node.get, Node.set] at hx
   cases hp : (st.h n).parent with
   | none =>
     simp [hp] at hx
     obtain ⟨rfl, rfl, rfl⟩ := hx
-    exact ⟨rfl, t, hH, fun x hx => hx⟩
+    exact ⟨rfl, .inl ⟨rfl, rfl⟩⟩
   | some p =>
     obtain ⟨hpn, hch, hcut⟩ := cut_holds (sz := st.size) hH hn hp
     simp [hp, valEq_ptr] at hx
@@ -546,9 +670,10 @@ theorem exec_cut :
       have hb' : (st.h p).left = some n := (eq_of_beq hb).symm
       simp [hb, hp, hρ1, upd_ne, Ne.symm hpn] at hx
       obtain ⟨rfl, rfl, rfl⟩ := hx
-      refine ⟨rfl, hcut _ _ ?_ ?_⟩
+      refine ⟨rfl, .inr (shr_intro' (hcut _ _ ?_ ?_) ?_)⟩
       · intro x h1 h2; simp [upd_ne, h1, h2, SamePtrs]
       · simp [upd_ne, upd_same, hpn, hb']
+      · intro a; simp only [upd]; (repeat' split) <;> simp_all
     | false =>
       have hb' : (st.h p).left ≠ some n := fun e => by simp [e] at hb
       simp [hb, hp, valEq_ptr] at hx
@@ -556,36 +681,133 @@ theorem exec_cut :
       | true =>
         simp [hb2, hp, hρ1, upd_ne, Ne.symm hpn] at hx
         obtain ⟨rfl, rfl, rfl⟩ := hx
-        refine ⟨rfl, hcut _ _ ?_ ?_⟩
+        refine ⟨rfl, .inr (shr_intro' (hcut _ _ ?_ ?_) ?_)⟩
         · intro x h1 h2; simp [upd_ne, h1, h2, SamePtrs]
         · simp [upd_ne, upd_same, hpn, hb']
+        · intro a; simp only [upd]; (repeat' split) <;> simp_all
       | false =>
         exfalso
         rcases hch with e | e
         · exact hb' e
         · simp [e] at hb2
 
-theorem exec_norepl (hK : ∀ fn, isK fn = true → SpecK callH fn) :
+theorem exec_norepl (hK : ∀ fn, isK fn = true → SpecK callH fn)
+    (hGC : ∀ args st v st', callH .getColor args st = .ok (v, st') → st' = st) :
     ∀ ρ st fl ρ' st' t n, Holds st t → n ∈ t.addrs → ρ 1 = .ptr (some n) →
       exec cmpF callH lf ρ st dnNoRepl = .ok (fl, ρ', st') →
-      fl = .normal ∧ ∃ t', Holds st' t' ∧ ∀ x ∈ t'.addrs, x ∈ t.addrs := by
+      fl = .normal ∧ ((∃ t', Shr st st' t t' n) ∨
+        ((st.h n).parent ≠ none ∧ ∃ v t', callH .fixAfterDelete [.ptr (some n)] st = .ok (v, st') ∧
+          Pres st st' t t' ∧ (st'.h n).parent = none)) := by
   intro ρ st fl ρ' st' t n hH hn hρ1 hx
   simp only [dnNoRepl, exec, evalE, hρ1, valEq_ptr, Node.get] at hx
   cases hp : (st.h n).parent with
   | none =>
     simp [hp] at hx
     obtain ⟨rfl, rfl, rfl⟩ := hx
-    exact ⟨rfl, .leaf, ⟨by simp [Repr], by simp [PT.addrs], by simp [PT.addrs]⟩, by simp [PT.addrs]⟩
+    exact ⟨rfl, .inl ⟨.leaf, ⟨by simp [Repr], by simp [PT.addrs], by simp [PT.addrs]⟩, by simp [PT.addrs],
+      by simp [PT.addrs], fun _ => rfl⟩⟩
   | some p =>
     simp [hp] at hx
     cases hf : exec cmpF callH lf ρ st dnFix with
     | error e => simp [hf] at hx
     | ok res =>
       obtain ⟨fl1, ρ1, st1⟩ := res
-      obtain ⟨rfl, rfl, t1, hH1, hsa⟩ := exec_fix cmpF callH lf hK _ _ _ _ _ t n hH hn hρ1 hf
+      obtain ⟨rfl, rfl, t1, hpr, hcase⟩ := exec_fix cmpF callH lf hK hGC _ _ _ _ _ t n hH hn hρ1 hf
       simp [hf] at hx
-      obtain ⟨h1, t2, hH2, hsub⟩ := exec_cut cmpF callH lf _ _ _ _ _ t1 n hH1 ((hsa n).2 hn) hρ1 hx
-      exact ⟨h1, t2, hH2, fun x hx => (hsa x).1 (hsub x hx)⟩
+      obtain ⟨h1, hcut⟩ := exec_cut cmpF callH lf _ _ _ _ _ t1 n hpr.holds ((hpr.same n).2 hn) hρ1 hx
+      refine ⟨h1, ?_⟩
+      rcases hcut with ⟨hpn, rfl⟩ | ⟨t2, hS⟩
+      · rcases hcase with rfl | ⟨v, hv⟩
+        · rw [hp] at hpn; cases hpn
+        · exact .inr ⟨by simp, v, t1, hv, hpr, hpn⟩
+      · exact .inl ⟨t2, Shr.of_pres hpr hS⟩
+
+/-- the exceptional outcome that contract K alone cannot exclude: `fixAfterDelete(n)` made the parentless -/
+def Bad (st st' : St) (t : PT) (n : Nat) : Prop :=
+  (st.h n).left = none ∧ (st.h n).right = none ∧ (st.h n).parent ≠ none ∧
+  ∃ v stm t', callH .fixAfterDelete [.ptr (some n)] st = .ok (v, stm) ∧ Pres st stm t t' ∧
+    (stm.h n).parent = none ∧ Holds st' t'
+
+theorem exec_rest (hK : ∀ fn, isK fn = true → SpecK callH fn)
+    (hGC : ∀ args st v st', callH .getColor args st = .ok (v, st') → st' = st) :
+    ∀ ρ st fl ρ' st' t n, Holds st t → n ∈ t.addrs → ρ 1 = .ptr (some n) →
+      exec cmpF callH lf ρ st dnRest = .ok (fl, ρ', st') →
+      fl = .normal ∧ ((∃ t', Shr st st' t t' n) ∨ Bad callH st st' t n) := by
+  intro ρ st fl ρ' st' t n hH hn hρ1 hx
+  simp only [dnRest, exec, evalE] at hx
+  have hρ1' : (ρ.set 3 (.ptr none)) 1 = .ptr (some n) := by simp [Env.set, hρ1]
+  cases h2 : exec cmpF callH lf (ρ.set 3 (.ptr none)) st dnPick with
+  | error e => simp [h2] at hx
+  | ok res =>
+    obtain ⟨fl2, ρ2, st2⟩ := res
+    obtain ⟨rfl, rfl, hρ2, hpick⟩ := exec_pick cmpF callH lf _ _ _ _ _ n hρ1' h2
+    simp only [h2] at hx
+    have hsplice : ∀ r, ρ2 3 = .ptr (some r) →
+        ((st2.h n).left = some r ∨ ((st2.h n).left = none ∧ (st2.h n).right = some r)) →
+        fl = .normal ∧ ((∃ t', Shr st2 st' t t' n) ∨ Bad callH st2 st' t n) := by
+      intro r hρ3 hrn
+      simp [hρ3, valEq_ptr] at hx
+      cases h3 : exec cmpF callH lf ρ2 st2 dnSplice with
+      | error e => simp [h3] at hx
+      | ok res =>
+        obtain ⟨fl3, ρ3, st3⟩ := res
+        obtain ⟨rfl, t3, hS⟩ := exec_splice cmpF callH lf hK hGC _ _ _ _ _ t n r hH hn hρ2 hρ3 hrn h3
+        simp [h3] at hx
+        obtain ⟨rfl, rfl, rfl⟩ := hx
+        exact ⟨rfl, .inl ⟨t3, hS.holds, hS.sub, hS.nmem, hS.keys⟩⟩
+    rcases hpick with ⟨r, hl, hρ3⟩ | ⟨hl, hρ3⟩
+    · exact hsplice r hρ3 (.inl hl)
+    · cases hr : (st2.h n).right with
+      | some r => exact hsplice r (by rw [hρ3, hr]) (.inr ⟨hl, hr⟩)
+      | none =>
+        simp [hρ3, hr, valEq_ptr] at hx
+        cases h3 : exec cmpF callH lf ρ2 st2 dnNoRepl with
+        | error e => simp [h3] at hx
+        | ok res =>
+          obtain ⟨fl3, ρ3, st3⟩ := res
+          obtain ⟨rfl, hcase⟩ := exec_norepl cmpF callH lf hK hGC _ _ _ _ _ t n hH hn hρ2 h3
+          simp [h3] at hx
+          obtain ⟨rfl, rfl, rfl⟩ := hx
+          refine ⟨rfl, ?_⟩
+          rcases hcase with ⟨t3, hS⟩ | ⟨hpn, v, t3, hv, hpr, hpn'⟩
+          · exact .inl ⟨t3, hS.holds, hS.sub, hS.nmem, hS.keys⟩
+          · exact .inr ⟨hl, hr, hpn, v, st3, t3, hv, hpr, hpn', hpr.holds⟩
+
+/-- the successor step when the order is known and `findSuccessor` satisfies its exact contract -/
+theorem exec_succ_ord
+    (hSucc : ∀ a st v st' t, Holds st t → a ∈ t.addrs → (st.h a).right ≠ none →
+       callH .findSuccessor [.ptr (some a)] st = .ok (v, st') →
+       st' = st ∧ ∃ s pre post, v = .ptr (some s) ∧ t.addrs = pre ++ a :: s :: post ∧ (st.h s).left = none) :
+    ∀ ρ st fl ρ' st' t n, Holds st t → Ordered cmpF st t → ρ 1 = .ptr (some n) → n ∈ t.addrs →
+      exec cmpF callH lf ρ st dnSucc = .ok (fl, ρ', st') →
+      fl = .normal ∧ ∃ n', Holds st' t ∧ ρ' 1 = .ptr (some n') ∧ n' ∈ t.addrs ∧ Good cmpF st'.h t.addrs n' := by
+  intro ρ st fl ρ' st' t n hH hO hρ hn hx
+  simp only [dnSucc, exec, evalE, hρ, valEq_ptr, Node.get] at hx
+  cases hl : (st.h n).left with
+  | none =>
+    simp [hl] at hx
+    obtain ⟨rfl, rfl, rfl⟩ := hx
+    exact ⟨rfl, n, hH, hρ, hn, good_of_ordered hO n⟩
+  | some l =>
+    cases hr : (st.h n).right with
+    | none =>
+      simp [hl, hr] at hx
+      obtain ⟨rfl, rfl, rfl⟩ := hx
+      exact ⟨rfl, n, hH, hρ, hn, good_of_ordered hO n⟩
+    | some r =>
+      cases hc : callH .findSuccessor [.ptr (some n)] st with
+      | error e => simp [hl, hr, hc] at hx
+      | ok res =>
+        obtain ⟨v, st1⟩ := res
+        obtain ⟨rfl, s, pre, post, rfl, hL, _⟩ := hSucc _ _ _ _ t hH hn (by simp [hr]) hc
+        have hs : s ∈ t.addrs := by rw [hL]; simp
+        simp [hl, hr, hc, Env.set, hρ, Node.set] at hx
+        obtain ⟨rfl, rfl, rfl⟩ := hx
+        refine ⟨rfl, s, holds_congr hH (fun a => ?_), by simp [Env.set], hs, ?_⟩
+        · by_cases han : a = n <;> simp [upd, SamePtrs, han, hl, hr]
+        · refine good_succ (key := fun a => (st1.h a).key) hL hH.2.1 hO ?_ ?_
+          · intro x hxn; simp [upd, hxn]
+          · simp [upd]
 
 end
 
@@ -596,7 +818,7 @@ theorem deleteNode_spec (cmpF : Int → Int → Int) (callH : CallH PName) (lf :
       runBody cmpF callH lf (procs .deleteNode) [.ptr (some a)] st = .ok (v, st') →
       ∃ t', Holds st' t' ∧ ∀ x ∈ t'.addrs, x ∈ t.addrs := by
   intro a st v st' t hH ha hx
-  simp only [runBody, procs, body_deleteNode_eq] at hx
+  simp only [runBody, procs, body_deleteNode_eq'] at hx
   simp only [exec, evalE] at hx
   have hρ0 : ((Env.ofArgs [Val.ptr (some a)]).set 1 (Env.ofArgs [Val.ptr (some a)] 0)) 1 = .ptr (some a) := by
     simp [Env.set, Env.ofArgs]
@@ -607,41 +829,51 @@ theorem deleteNode_spec (cmpF : Int → Int → Int) (callH : CallH PName) (lf :
     obtain ⟨fl1, ρ1, st1⟩ := res
     obtain ⟨rfl, t1, n, hH1, hsa, hρ1, hn⟩ := exec_succ cmpF callH lf hK _ _ _ _ _ t a hH hρ0 ha h1
     simp only [h1] at hx
-    have hρ1' : (ρ1.set 3 (.ptr none)) 1 = .ptr (some n) := by simp [Env.set, hρ1]
-    cases h2 : exec cmpF callH lf (ρ1.set 3 (.ptr none)) st1 dnPick with
+    cases h2 : exec cmpF callH lf ρ1 st1 dnRest with
     | error e => simp [h2] at hx
     | ok res =>
       obtain ⟨fl2, ρ2, st2⟩ := res
-      obtain ⟨rfl, rfl, hρ2, hpick⟩ := exec_pick cmpF callH lf _ _ _ _ _ n hρ1' h2
-      simp only [h2] at hx
-      have hsplice : ∀ r, ρ2 3 = .ptr (some r) →
-          ((st2.h n).left = some r ∨ ((st2.h n).left = none ∧ (st2.h n).right = some r)) →
-          ∃ t', Holds st' t' ∧ ∀ x ∈ t'.addrs, x ∈ t.addrs := by
-        intro r hρ3 hrn
-        simp [hρ3, valEq_ptr] at hx
-        cases h3 : exec cmpF callH lf ρ2 st2 dnSplice with
-        | error e => simp [h3] at hx
-        | ok res =>
-          obtain ⟨fl3, ρ3, st3⟩ := res
-          obtain ⟨rfl, t3, hH3, hsub⟩ := exec_splice cmpF callH lf hK hGC _ _ _ _ _ t1 n r hH1 hn hρ2 hρ3 hrn h3
-          simp [h3] at hx
-          obtain ⟨rfl, rfl⟩ := hx
-          exact ⟨t3, hH3, fun x hx => (hsa x).1 (hsub x hx)⟩
-      rcases hpick with ⟨r, hl, hρ3⟩ | ⟨hl, hρ3⟩
-      · exact hsplice r hρ3 (.inl hl)
-      · cases hr : (st2.h n).right with
-        | some r => exact hsplice r (by rw [hρ3, hr]) (.inr ⟨hl, hr⟩)
-        | none =>
-          simp [hρ3, hr, valEq_ptr] at hx
-          cases h3 : exec cmpF callH lf ρ2 st2 dnNoRepl with
-          | error e => simp [h3] at hx
-          | ok res =>
-            obtain ⟨fl3, ρ3, st3⟩ := res
-            obtain ⟨rfl, t3, hH3, hsub⟩ := exec_norepl cmpF callH lf hK _ _ _ _ _ t1 n hH1 hn hρ2 h3
-            simp [h3] at hx
-            obtain ⟨rfl, rfl⟩ := hx
-            exact ⟨t3, hH3, fun x hx => (hsa x).1 (hsub x hx)⟩
+      obtain ⟨rfl, hcase⟩ := exec_rest cmpF callH lf hK hGC _ _ _ _ _ t1 n hH1 hn hρ1 h2
+      simp [h2] at hx
+      obtain ⟨rfl, rfl⟩ := hx
+      rcases hcase with ⟨t2, hS⟩ | ⟨_, _, _, v, stm, t2, _, hpr, _, hH2⟩
+      · exact ⟨t2, hS.holds, fun x hx => (hsa x).1 (hS.mem x hx)⟩
+      · exact ⟨t2, hH2, fun x hx => (hsa x).1 ((hpr.same x).1 hx)⟩
 
+theorem deleteNode_ord (cmpF : Int → Int → Int) (hLaw : Ekit.RB.LawfulCmp cmpF) (callH : CallH PName) (lf : Nat)
+    (hK : ∀ fn, isK fn = true → SpecK callH fn)
+    (hGC : ∀ args st v st', callH .getColor args st = .ok (v, st') → st' = st)
+    (hSucc : ∀ a st v st' t, Holds st t → a ∈ t.addrs → (st.h a).right ≠ none →
+       callH .findSuccessor [.ptr (some a)] st = .ok (v, st') →
+       st' = st ∧ ∃ s pre post, v = .ptr (some s) ∧ t.addrs = pre ++ a :: s :: post ∧ (st.h s).left = none)
+    (hFix : ∀ x st v st' t, Holds st t → x ∈ t.addrs → (st.h x).left = none → (st.h x).right = none →
+       (st.h x).parent ≠ none → callH .fixAfterDelete [.ptr (some x)] st = .ok (v, st') → (st'.h x).parent ≠ none) :
+    ∀ a st v st' t, Holds st t → Ordered cmpF st t → a ∈ t.addrs →
+      runBody cmpF callH lf (procs .deleteNode) [.ptr (some a)] st = .ok (v, st') →
+      ∃ t', Holds st' t' ∧ Ordered cmpF st' t' := by
+  intro a st v st' t hH hO ha hx
+  have _ := hLaw  -- not needed: `Ordered` is pairwise, so no transitivity argument is required
+  simp only [runBody, procs, body_deleteNode_eq'] at hx
+  simp only [exec, evalE] at hx
+  have hρ0 : ((Env.ofArgs [Val.ptr (some a)]).set 1 (Env.ofArgs [Val.ptr (some a)] 0)) 1 = .ptr (some a) := by
+    simp [Env.set, Env.ofArgs]
+  generalize ((Env.ofArgs [Val.ptr (some a)]).set 1 (Env.ofArgs [Val.ptr (some a)] 0)) = ρ0 at hx hρ0
+  cases h1 : exec cmpF callH lf ρ0 st dnSucc with
+  | error e => simp [h1] at hx
+  | ok res =>
+    obtain ⟨fl1, ρ1, st1⟩ := res
+    obtain ⟨rfl, n, hH1, hρ1, hn, hG⟩ := exec_succ_ord cmpF callH lf hSucc _ _ _ _ _ t a hH hO hρ0 ha h1
+    simp only [h1] at hx
+    cases h2 : exec cmpF callH lf ρ1 st1 dnRest with
+    | error e => simp [h2] at hx
+    | ok res =>
+      obtain ⟨fl2, ρ2, st2⟩ := res
+      obtain ⟨rfl, hcase⟩ := exec_rest cmpF callH lf hK hGC _ _ _ _ _ t n hH1 hn hρ1 h2
+      simp [h2] at hx
+      obtain ⟨rfl, rfl⟩ := hx
+      rcases hcase with ⟨t2, hS⟩ | ⟨hl, hr, hp, v, stm, t2, hv, _, hp', _⟩
+      · exact ⟨t2, hS.holds, hS.ordered hG⟩
+      · exact absurd hp' (hFix n st1 v stm t hH1 hn hl hr hp hv)
 
 end Ekit.MiniGo.RBHeap.Del
 
